@@ -11,7 +11,7 @@ use serde::{Deserialize, Serialize};
 
 pub const STRUCT_NAMES: &[&str] = &[
     "A", "AA", "Ab", "B", "Zed", "a", "Person2", "Bytes", "Uint", "_x", "Mail", "Z", "b", "Aa", "Order", "aa", "Int8x",
-    "Node", "M", "m",
+    "Node", "M", "m", "A$", "A$b", "Zed$1", "$x", "Mail$Box", "a$",
 ];
 pub const MEMBER_NAMES: &[&str] = &[
     "a", "b", "from", "to", "value", "bytes", "name", "A", "B", "data", "x1", "_y", "uint256", "Zed", "id", "next",
@@ -468,7 +468,8 @@ pub fn gen_model(u: &mut U, value_budget: u32, node_limit: usize) -> TdModel {
 
 pub fn gen_case(u: &mut U) -> TdCase {
     let model = gen_model(u, 3, 150);
-    let doc = render_doc(&model, u).render();
+    let style = u.u64();
+    let doc = render_doc(&model, u).render_styled(style);
     TdCase { doc, model }
 }
 
